@@ -57,16 +57,18 @@ Fault == [kind : {"code"}, code : Codes] \cup [kind : {"malformed"}, class : STR
 Expected(ep, f) == IF f.kind = "code" THEN CodeClass(f.code) ELSE MalformedClass(f.class)
 
 (* ---- bad requests: 4xx before any backend call ---- *)
+\* badEscape / semicolonSeparator: a query string that is malformed as a whole (an invalid %-escape, a ';'
+\* separator) although the required parameters it also carries are well formed
 ParamClasses(ep) ==
   CASE ep \in {"add-chain", "add-pre-chain"} -> {"wrongMethod", "notJSON", "emptyObject", "emptyChain", "chainNotBase64", "garbageCert", "trailingJunkCert"}
-    [] ep = "get-sth" -> {"wrongMethod"}
-    [] ep = "get-roots" -> {"wrongMethod"}
-    [] ep = "get-sth-consistency" -> {"wrongMethod", "missingFirst", "missingSecond", "emptyFirst", "negativeFirst", "negativeSecond",
+    [] ep = "get-sth" -> {"wrongMethod", "badEscape", "semicolonSeparator"}
+    [] ep = "get-roots" -> {"wrongMethod", "badEscape", "semicolonSeparator"}
+    [] ep = "get-sth-consistency" -> {"wrongMethod", "badEscape", "semicolonSeparator", "missingFirst", "missingSecond", "emptyFirst", "negativeFirst", "negativeSecond",
                                       "overflowSecond", "nonNumericFirst", "firstGreaterThanSecond"}
-    [] ep = "get-proof-by-hash" -> {"wrongMethod", "missingHash", "emptyHash", "badBase64Hash", "missingTreeSize", "zeroTreeSize",
+    [] ep = "get-proof-by-hash" -> {"wrongMethod", "badEscape", "semicolonSeparator", "missingHash", "emptyHash", "badBase64Hash", "missingTreeSize", "zeroTreeSize",
                                     "negativeTreeSize", "overflowTreeSize", "nonNumericTreeSize"}
-    [] ep = "get-entries" -> {"wrongMethod", "missingStart", "missingEnd", "negativeStart", "negativeEnd", "overflowEnd", "nonNumericStart", "startGreaterThanEnd"}
-    [] ep = "get-entry-and-proof" -> {"wrongMethod", "missingIndex", "missingTreeSize", "negativeIndex", "zeroTreeSize", "negativeTreeSize",
+    [] ep = "get-entries" -> {"wrongMethod", "badEscape", "semicolonSeparator", "missingStart", "missingEnd", "negativeStart", "negativeEnd", "overflowEnd", "nonNumericStart", "startGreaterThanEnd"}
+    [] ep = "get-entry-and-proof" -> {"wrongMethod", "badEscape", "semicolonSeparator", "missingIndex", "missingTreeSize", "negativeIndex", "zeroTreeSize", "negativeTreeSize",
                                       "overflowTreeSize", "nonNumericIndex", "indexNotBelowTreeSize"}
     [] OTHER -> {}
 
